@@ -111,6 +111,10 @@ def start_node(box, start, flags):
                     list(n.items())
                 n.attrs
                 n.meta
+                for s_ in QUERY:  # queries too: whatever they remember must not outlive a later restrict()
+                    list(n.metador.query(s_))
+                    if start == "container":
+                        list(box.c.metador.query(s_, node=n))
                 if start != "container":
                     n.parent
             except Exception:  # noqa  (pre-use is best effort; judged afterwards)
